@@ -1528,10 +1528,10 @@ Qed.
 
 (* ... and the excluded class is not empty: the run of corpus/C18/dhcp-d14b-expiry-while-silenced.case on the model *)
 Definition ex_d14b_offer : dhif_frame :=
-  FrDhcp true true true ex_srv 67 68
+  FrDhcp 0 true true ex_srv ip_BROADCAST 67 68
     (Some (mkRepr MtOffer 1000 1 ex_ip (Some ex_srv) (Some 4294967040) None (Some 10) (Some 9) None None)).
 Definition ex_d14b_ack : dhif_frame :=
-  FrDhcp true true true ex_srv 67 68
+  FrDhcp 0 true true ex_srv ip_BROADCAST 67 68
     (Some (mkRepr MtAck 1000 1 ex_ip (Some ex_srv) (Some 4294967040) None (Some 10) (Some 9) None None)).
 Definition ex_xid_of (n : Z) : Z := 1000 + n.
 Definition ex_d14b_state : dhif :=
